@@ -165,7 +165,7 @@ func VerifC11DialerIndex(r *Resolver, reqid uint16, proto string) (index, config
 	}
 	index = -1
 	for i, x := range r.outboundIPv4 {
-		if ip != nil && x.Equal(ip) {
+		if len(ip) > 0 && len(x) > 0 && &x[0] == &ip[0] { // identity: the configured entries may all be the same address
 			index = i
 		}
 	}
